@@ -1,4 +1,5 @@
-"""Fail-closed translator of the bodies of nine Hypergraph mutators - add_node, add_node_to_edge, remove_edge, remove_node,
+"""Fail-closed translator of the bodies of nine Hypergraph mutators and of the items of the bulk calls (add_edges_from in
+all five formats, remove_nodes_from) - add_node, add_node_to_edge, remove_edge, remove_node,
 remove_node_from_edge, add_edge, remove_edges_from, clear, clear_edges (xgi/core/hypergraph.py) - into programs of the small imperative language of
 coq/Model/PyIR.v (coq/Gen/Mutators.v).  `Props/C01.v` proves that running the regenerated programs on a state
 satisfying the class invariant is exactly what the hand-written model does.
@@ -40,6 +41,9 @@ class M:
         self.loops, self.locals = [], []          # innermost first
         self.members, self.idx, self.uid = members, idx, None   # add_edge: the `members` set, the optional id, the bound uid
         self.always_auto = False                                # a helper that always draws its id from the counter
+        self.item_mode = False                                  # the body of a loop over items: `continue` ends the item
+        self.eattr = None                                       # the item's own attribute dict (bulk formats)
+        self.flag_exprs = {}                                    # source text of a boolean expression -> flag index
 
     def v(self, x):
         if isinstance(x, ast.Name) and x.id in self.labels:
@@ -79,6 +83,8 @@ class M:
             return f"(BNot {self.cond(c.operand)})"
         if isinstance(c, ast.Name) and c.id in self.flags:
             return f"(BFlag {self.flags.index(c.id)})"
+        if ast.unparse(c) in self.flag_exprs:
+            return f"(BFlag {self.flag_exprs[ast.unparse(c)]})"
         if isinstance(c, ast.Compare) and len(c.ops) == 1 and isinstance(c.ops[0], (ast.Is, ast.IsNot)) and self.idx is not None \
                 and isinstance(c.left, ast.Name) and c.left.id == self.idx and ast.unparse(c.comparators[0]) == "None":
             return "BIdxNone" if isinstance(c.ops[0], ast.Is) else "(BNot BIdxNone)"
@@ -99,6 +105,8 @@ class M:
         if isinstance(c, ast.Compare) and len(c.ops) == 1 and isinstance(c.ops[0], (ast.In, ast.NotIn)):
             right = c.comparators[0]
             t = self.selftab(right, TABLES)
+            if t is None and isinstance(right, ast.Name) and right.id == "self":
+                t = "TNode"               # `n in self` is Hypergraph.__contains__: n in self._node
             if t:
                 base = f"(BIn {self.v(c.left)} {t})"
             else:
@@ -151,9 +159,12 @@ class M:
                     gs.append(f"({self.cond(st.test)}, GRaise {b[0].exc.func.id})")
                     continue
                 if len(b) == 2 and isinstance(b[0], ast.Expr) and isinstance(b[0].value, ast.Call) and isinstance(b[0].value.func, ast.Name) \
-                        and b[0].value.func.id == "warn" and isinstance(b[1], ast.Return) and b[1].value is None:
+                        and b[0].value.func.id == "warn" and ((isinstance(b[1], ast.Return) and b[1].value is None and not self.item_mode)
+                                                             or (isinstance(b[1], ast.Continue) and self.item_mode)):
                     gs.append(f"({self.cond(st.test)}, GWarnReturn)")
                     continue
+            if self.item_mode and ast.unparse(st) == DECODE_MEMBERS:
+                continue          # input decoding: the interpreter is handed list(members) and set(members)
             return gs, stmts[i:]
         return gs, []
 
@@ -183,6 +194,11 @@ class M:
                 s = self.sub(call.func.value, ATABLES)
                 if s:
                     return f"(SAttrUpdate {s[0]} {s[1]})"
+            if isinstance(call.func, ast.Attribute) and call.func.attr == "update" and len(call.args) == 1 \
+                    and isinstance(call.args[0], ast.Name) and self.eattr is not None and call.args[0].id == self.eattr:
+                s = self.sub(call.func.value, ATABLES)
+                if s:
+                    return f"(SAttrUpdateItem {s[0]} {s[1]})"
             if isinstance(call.func, ast.Attribute) and call.func.attr in ("add", "remove") and len(call.args) == 1:
                 s = self.sub(call.func.value, TABLES)
                 if s:
@@ -282,7 +298,111 @@ def translate():
             raise TranslationError(f"Hypergraph.{pyname} not found or unexpected parameters")
         body = [s for s in fns[0].body if not (isinstance(s, ast.Expr) and isinstance(s.value, ast.Constant))]
         out.append(f"Definition {coqname} : list stmt :=\n  {M([], flags, None, members=members).block(body)}.\n")
-    return out + translate_add_edge(cls[0])
+    return out + translate_add_edge(cls[0]) + translate_add_edges_from_dict(cls[0]) + translate_add_edges_from_items(cls[0]) \
+        + translate_remove_nodes_from(cls[0])
+
+
+DECODE_MEMBERS = ("try:\n    members = list(members)\n    member_set = set(members)\n"
+                  "except TypeError as e:\n    raise XGIError('Invalid ebunch format') from e")
+
+
+def translate_add_edges_from_dict(cls):
+    """the dict branch (format 5) of add_edges_from:  for idx, members in ebunch_to_add.items(): <item>  - the item is
+    translated as a guarded body run once per (idx, members)"""
+    fns = [n for n in cls.body if isinstance(n, ast.FunctionDef) and n.name == "add_edges_from"]
+    if len(fns) != 1 or [a.arg for a in fns[0].args.args] != ["self", "ebunch_to_add"] or fns[0].args.kwarg is None:
+        raise TranslationError("Hypergraph.add_edges_from not found or unexpected parameters")
+    body = [s for s in fns[0].body if not (isinstance(s, ast.Expr) and isinstance(s.value, ast.Constant))]
+    first = body[0] if body else None
+    if not (isinstance(first, ast.If) and ast.unparse(first.test) == "isinstance(ebunch_to_add, dict)" and not first.orelse
+            and len(first.body) == 2 and isinstance(first.body[1], ast.Return) and first.body[1].value is None):
+        raise TranslationError("Hypergraph.add_edges_from: expected the dict branch first")
+    loop = first.body[0]
+    if not (isinstance(loop, ast.For) and ast.unparse(loop.target) == "(idx, members)" and ast.unparse(loop.iter) == "ebunch_to_add.items()"
+            and not loop.orelse):
+        raise TranslationError("Hypergraph.add_edges_from: expected `for idx, members in ebunch_to_add.items():`")
+    m = M([], [], None, members="member_set", idx="idx")
+    m.item_mode = True
+    m.locals = ["members"]
+    gs, rest = m.guards(loop.body)
+    return [f"Definition src_add_edges_from_dict_guards : list (bexp * guard_action) :=\n  [{'; '.join(gs)}].\n",
+            f"Definition src_add_edges_from_dict : list stmt :=\n  {m.block(rest)}.\n"]
+
+
+FORMAT_DISPATCH = {
+    # the tuple assigned to (members, idx, eattr) in each format -> (the id is the caller's, the item has its own attributes)
+    "(e, next(self._edge_uid), {})": (False, False),
+    "(e[0], e[1], {})": (True, False),
+    "(e[0], next(self._edge_uid), e[1])": (False, True),
+    "(e[0], e[1], e[2])": (True, True),
+}
+NEXT_ITEM = "try:\n    e = next(new_edges)\nexcept StopIteration:\n    break"
+
+
+def translate_add_edges_from_items(cls):
+    """formats 1-4 of add_edges_from: the `while True:` loop - the dispatch on the format (read into a table), the item
+    (`if idx in self._edge.keys(): warn(...) else: <statements>`, translated as a guarded body) and the fetch of the next item"""
+    fns = [n for n in cls.body if isinstance(n, ast.FunctionDef) and n.name == "add_edges_from"]
+    if len(fns) != 1:
+        raise TranslationError("Hypergraph.add_edges_from not found")
+    loops = [s for s in fns[0].body if isinstance(s, ast.While)]
+    if len(loops) != 1 or ast.unparse(loops[0].test) != "True" or loops[0].orelse or len(loops[0].body) != 3:
+        raise TranslationError("Hypergraph.add_edges_from: expected one `while True:` loop of three statements")
+    disp, item, nxt = loops[0].body
+    # 1. the dispatch: if format1: members, idx, eattr = ... elif format2: ... elif format3: ... elif format4: ...
+    table = []
+    cur = disp
+    for k in (1, 2, 3, 4):
+        if not (isinstance(cur, ast.If) and isinstance(cur.test, ast.Name) and cur.test.id == f"format{k}" and len(cur.body) == 1
+                and isinstance(cur.body[0], ast.Assign) and ast.unparse(cur.body[0].targets[0]) == "(members, idx, eattr)"
+                and ast.unparse(cur.body[0].value) in FORMAT_DISPATCH):
+            raise TranslationError(f"Hypergraph.add_edges_from: dispatch of format {k} not understood")
+        table.append(FORMAT_DISPATCH[ast.unparse(cur.body[0].value)])
+        if k < 4:
+            if len(cur.orelse) != 1:
+                raise TranslationError("Hypergraph.add_edges_from: dispatch chain not understood")
+            cur = cur.orelse[0]
+        elif cur.orelse:
+            raise TranslationError("Hypergraph.add_edges_from: dispatch chain not understood")
+    # 3. the fetch of the next item
+    if ast.unparse(nxt) != NEXT_ITEM:
+        raise TranslationError("Hypergraph.add_edges_from: fetch of the next item not understood")
+    # 2. the item
+    if not (isinstance(item, ast.If) and len(item.body) == 1 and isinstance(item.body[0], ast.Expr) and isinstance(item.body[0].value, ast.Call)
+            and isinstance(item.body[0].value.func, ast.Name) and item.body[0].value.func.id == "warn" and item.orelse):
+        raise TranslationError("Hypergraph.add_edges_from: item not understood")
+    m = M([], [], fns[0].args.kwarg.arg, members="member_set", idx="idx")
+    m.item_mode = True
+    m.locals = ["members"]
+    m.eattr = "eattr"
+    # `format2 or format4` etc.: a disjunction of format names is the flag "the id is the caller's" iff it lists exactly those formats
+    explicit = [f"format{k + 1}" for k, (ex, _) in enumerate(table) if ex]
+    m.flag_exprs = {" or ".join(explicit): 0}
+    g0 = f"({m.cond(item.test)}, GWarnReturn)"
+    gs, rest = m.guards(item.orelse)
+    tab = "; ".join(f"({str(ex).lower()}, {str(ea).lower()})" for ex, ea in table)
+    return [f"Definition src_bulk_formats : list (bool * bool) :=\n  [{tab}].\n",
+            f"Definition src_bulk_item_guards : list (bexp * guard_action) :=\n  [{'; '.join([g0] + gs)}].\n",
+            f"Definition src_bulk_item : list stmt :=\n  {m.block(rest)}.\n"]
+
+
+def translate_remove_nodes_from(cls):
+    """remove_nodes_from(self, nodes, strong=False, remove_empty=True): for n in nodes: <guards>; self.remove_node(n, ...)"""
+    fns = [n for n in cls.body if isinstance(n, ast.FunctionDef) and n.name == "remove_nodes_from"]
+    if len(fns) != 1 or [a.arg for a in fns[0].args.args] != ["self", "nodes", "strong", "remove_empty"]:
+        raise TranslationError("Hypergraph.remove_nodes_from not found or unexpected parameters")
+    body = [s for s in fns[0].body if not (isinstance(s, ast.Expr) and isinstance(s.value, ast.Constant))]
+    if not (len(body) == 1 and isinstance(body[0], ast.For) and isinstance(body[0].target, ast.Name) and ast.unparse(body[0].iter) == "nodes"
+            and not body[0].orelse):
+        raise TranslationError("Hypergraph.remove_nodes_from: expected one loop over `nodes`")
+    var = body[0].target.id
+    m = M([], ["strong", "remove_empty"], None)
+    m.item_mode = True
+    m.loops = [var]
+    gs, rest = m.guards(body[0].body)
+    if len(rest) != 1 or ast.unparse(rest[0]) != f"self.remove_node({var}, strong=strong, remove_empty=remove_empty)":
+        raise TranslationError("Hypergraph.remove_nodes_from: expected the call of remove_node with the same options")
+    return [f"Definition src_remove_nodes_from_guards : list (bexp * guard_action) :=\n  [{'; '.join(gs)}].\n"]
 
 
 def translate_add_edge(cls):
